@@ -139,6 +139,9 @@ class Engine:
         self.models = models or {}
         self.events = {}
         self.phi_ops = {}
+        self.phi_gate = {}          # phi -> (condition term, value if true, value if false)
+        self.nonfinal = 0           # >0 while some frame on the stack is in its fixpoint-iteration pass
+        self.edge_hook = None       # f(body, src_bb, tgt_bb, state, fk) on every propagated CFG edge
         self.visited_fns = set()
         self.steps = 0
         self.step_budget = step_budget
@@ -147,7 +150,8 @@ class Engine:
         self.value_hook = None      # f(term, loc, facts) for every computed rvalue
         self.trait_dispatch = None  # f(trait, method) -> body path, for dyn / generic-Self calls
         self.store_hook = None      # f(place_term, value, loc, facts) for writes through symbolic places
-        self.branches = []          # (discriminant term, loc) of every non-constant SwitchInt
+        self.branches = []          # (discriminant term, loc) of every non-constant SwitchInt (last visit)
+        self._branch_idx = {}
         self.loc = None
 
     # ---------------------------------------------------------------------------------- entry
@@ -171,8 +175,24 @@ class Engine:
             st0.store[(fk, i + 1)] = a
         instates = {0: st0}
         work = [0]
-        ret_val = None; ret_state = None
         succ_cache = body.succ()
+        seen_blocks = set(); revisited = False
+        final_ctx = self.nonfinal == 0
+        self.nonfinal += 1
+        try:
+            ret_val, ret_state = self.iterate(body, fk, stack, instates, work)
+        finally:
+            self.nonfinal -= 1
+        if final_ctx:
+            ret_val, ret_state = self.final_pass(body, fk, stack, st0, instates)
+        r = Result()
+        if ret_state is not None:
+            r.returns = True; r.ret = ret_val; r.facts = ret_state.facts; r.state = ret_state
+        return r
+
+    def iterate(self, body, fk, stack, instates, work):
+        ret_val = None; ret_state = None
+        seen_blocks = set(); revisited = False
         while work:
             work.sort()
             bb = work.pop(0)
@@ -181,6 +201,8 @@ class Engine:
             st = instates[bb].copy()
             blk = body.blocks[bb]
             if blk["cleanup"]: continue
+            if bb in seen_blocks: revisited = True
+            seen_blocks.add(bb)
             for s in blk["stmts"]:
                 self.loc = (body.path, bb, s.get("at"), fk)
                 self.exec_stmt(body, fk, st, s, bb)
@@ -204,34 +226,186 @@ class Engine:
                     if not self.same_state(old, new):
                         instates[tgt] = new
                         if tgt not in work: work.append(tgt)
-        r = Result()
-        if ret_state is not None:
-            r.returns = True; r.ret = ret_val; r.facts = ret_state.facts; r.state = ret_state
-        return r
+        return ret_val, ret_state
+
+    def final_pass(self, body, fk, stack, st0, instates):
+        """After the fixpoint iteration converged on a body with loops: one clean pass in reverse
+        post-order with the loop-head states fixed to their converged values.  Every other block is
+        then executed once, from the join of the FINAL states of its predecessors, so that events,
+        gated merges and facts are not polluted by the less general states of early iterations."""
+        rpo = body.rpo()
+        succ = body.succ()
+        heads = set()
+        for b, ss in enumerate(succ):
+            if b not in rpo: continue
+            for t in ss:
+                if t in rpo and rpo[t] <= rpo[b]: heads.add(t)
+        # forget the merges created for non-head blocks of this frame during the iteration
+        def of_frame(p):
+            k = p[1]
+            while isinstance(k, tuple) and k and isinstance(k[0], tuple) and len(k[0]) == 2 and k[0][0] == fk and isinstance(k[0][1], int):
+                return k[0][1]
+            return None
+        for p in list(self.phi_ops):
+            b = of_frame(p)
+            if b is not None and b not in heads:
+                del self.phi_ops[p]; self.phi_gate.pop(p, None)
+        new_in = {0: st0}
+        for h in heads:
+            if h in instates: new_in[h] = instates[h]
+        ret_val = None; ret_state = None
+        for bb in sorted(rpo, key=lambda b: rpo[b]):
+            if bb not in new_in: continue
+            blk = body.blocks[bb]
+            if blk["cleanup"]: continue
+            self.steps += 1
+            st = new_in[bb].copy()
+            for s in blk["stmts"]:
+                self.loc = (body.path, bb, s.get("at"), fk)
+                self.exec_stmt(body, fk, st, s, bb)
+            self.loc = (body.path, bb, blk["term"].get("at"), fk)
+            outs = self.exec_term(body, fk, st, blk["term"], bb, stack)
+            for tgt, ost in outs:
+                if self.edge_hook is not None: self.edge_hook(body, bb, tgt, ost, fk)
+                if tgt == "return":
+                    rv = ost.store.get((fk, 0), UNDEF)
+                    if ret_state is None: ret_val, ret_state = rv, ost
+                    else:
+                        ret_val = self.join_val(ret_val, rv, ('ret', fk))
+                        ret_state = self.join_state(ret_state, ost, ('retst', fk))
+                    continue
+                if tgt in heads: continue
+                old = new_in.get(tgt)
+                new_in[tgt] = ost if old is None else self.join_state(old, ost, (fk, tgt))
+        return ret_val, ret_state
 
     # -------------------------------------------------------------------------------- joins
-    def join_val(self, a, b, key):
+    def join_val(self, a, b, key, gate=None):
         if a == b: return a
         if a == UNDEF: return b
         if b == UNDEF: return a
         if a[0] == 'agg' and b[0] == 'agg' and a[1] == b[1] and a[2] == b[2] and len(a[3]) == len(b[3]):
-            return ('agg', a[1], a[2], tuple(self.join_val(x, y, key + (i,)) for i, (x, y) in enumerate(zip(a[3], b[3]))))
+            return ('agg', a[1], a[2], tuple(self.join_val(x, y, key + (i,), gate) for i, (x, y) in enumerate(zip(a[3], b[3]))))
+        # one side already is a merge that has the other among its operands: keep the merge
+        if b[0] == 'phi' and a in self.phi_ops.get(b, ()): return b
+        if a[0] == 'phi' and b in self.phi_ops.get(a, ()): return a
+        if a[0] == b[0] and a[0] in ('fld', 'dc', 'deref', 'idx', 'op', 'un', 'cast', 'call', 'discr'):
+            if self._match(b, a, {}): return b
+            if self._match(a, b, {}): return a
         p = ('phi', key)
         ops = self.phi_ops.setdefault(p, set())
-        if a != p: ops.add(a)
-        if b != p: ops.add(b)
+        fresh = not ops
+        if fresh:
+            if a != p: ops.add(a)
+            if b != p: ops.add(b)
+            if gate is not None and a != p and b != p:
+                # clean two-way merge whose two sides are told apart by one branch condition:
+                # remember phi = if gate { a } else { b }   (a gated phi; still a join, not a path)
+                self.phi_gate[p] = (gate[0], a, b) if gate[1] else (gate[0], b, a)
+            return p
+        for x in (a, b):
+            if x == p or x in ops: continue
+            older = [o for o in ops if self._match(x, o, {})]
+            if older:
+                # x is the more general form of an operand recorded on an earlier visit: replace it
+                for o in older: ops.discard(o)
+                ops.add(x)
+                g = self.phi_gate.get(p)
+                if g is not None:
+                    m = {}
+                    ng = tuple(x if (y in older) else y for y in g[1:])
+                    cond = g[0]
+                    self._match_cond = None
+                    self.phi_gate[p] = (self._generalise_like(cond, x, older[0]),) + ng
+            else:
+                ops.add(x)
+                self.phi_gate.pop(p, None)
         return p
 
+    def _generalise_like(self, cond, gen, spec):
+        """rewrite `cond` replacing the stale symbols of `spec` by the matching ones of `gen`"""
+        m = {}
+        if not self._match(gen, spec, m): return cond
+        inv = {v: k for k, v in m.items()}
+        return self._subst(cond, inv, {})
+
+    def _match(self, gen, spec, m, depth=0):
+        """one-way matching: can `gen` (with its phi symbols read as 'any of their operands') be
+        instantiated to `spec`?  m: phi -> chosen operand"""
+        if gen == spec: return True
+        if not isinstance(gen, tuple) or not isinstance(spec, tuple) or depth > 60: return False
+        if gen and gen[0] == 'phi':
+            if gen in m: return m[gen] == spec
+            if spec == UNDEF or spec in self.phi_ops.get(gen, ()):
+                m[gen] = spec; return True
+            return False
+        if len(gen) != len(spec) or not gen or gen[0] != spec[0] or gen[0] in ('c', 'p', 'sym', 'static', 'fn'): return False
+        for x, y in zip(gen[1:], spec[1:]):
+            if x == y: continue
+            if isinstance(x, tuple) and isinstance(y, tuple):
+                if not self._match(x, y, m, depth + 1): return False
+            else: return False
+        return True
+
+    def _subst(self, t, m, memo):
+        if not isinstance(t, tuple) or not t: return t
+        if t in m: return m[t]
+        if t in memo: return memo[t]
+        if isinstance(t[0], str) and t[0] in ('c', 'p', 'sym', 'phi', 'static', 'fn'):
+            memo[t] = t; return t
+        r = tuple(self._subst(x, m, memo) if isinstance(x, tuple) else x for x in t)
+        memo[t] = r
+        return r
+
+    def subsumes(self, gen, spec):
+        """state `gen` is at least as general as `spec`: every location matches under one
+        instantiation of gen's phi symbols and gen's facts, instantiated, are facts of spec"""
+        m = {}
+        for k, vs in spec.store.items():
+            vg = gen.store.get(k, UNDEF)
+            if vg != vs and not self._match(vg, vs, m): return False
+        for k in gen.store.keys() - spec.store.keys():
+            pass
+        for k in gen.heap.keys() | spec.heap.keys():
+            vg = gen.heap.get(k, k); vs = spec.heap.get(k, k)
+            if vg != vs and not self._match(vg, vs, m): return False
+        if gen.facts and m:
+            memo = {}
+            for f in gen.facts:
+                if f in spec.facts: continue
+                if self._subst(f, m, memo) not in spec.facts: return False
+        elif not gen.facts <= spec.facts:
+            return False
+        return True
+
     def join_state(self, a, b, key):
+        if a.store.keys() >= b.store.keys() and self.subsumes(a, b): return a
+        if b.store.keys() >= a.store.keys() and self.subsumes(b, a): return b
+        # gate: exactly one boolean term known true on one side and false on the other
+        gate = None
+        cands = [f for f in a.facts if f[0] == 'b' and ('b', f[1], not f[2]) in b.facts]
+        if len(cands) == 1: gate = (cands[0][1], cands[0][2])
         store = {}
         for k in a.store.keys() | b.store.keys():
             va = a.store.get(k, UNDEF); vb = b.store.get(k, UNDEF)
-            store[k] = va if va == vb else self.join_val(va, vb, (key, k))
+            store[k] = va if va == vb else self.join_val(va, vb, (key, k), gate)
         heap = {}
         for k in a.heap.keys() | b.heap.keys():
             va = a.heap.get(k, k); vb = b.heap.get(k, k)   # absent = unmodified place
-            heap[k] = va if va == vb else self.join_val(va, vb, (key, 'h', k))
-        return State(store, heap, a.facts & b.facts)
+            heap[k] = va if va == vb else self.join_val(va, vb, (key, 'h', k), gate)
+        facts = a.facts & b.facts
+        # facts of the more general side whose instantiation holds on the other side are kept
+        for gen, spec in ((a, b), (b, a)):
+            extra = gen.facts - facts
+            if not extra: continue
+            m = {}
+            for k, vs in spec.store.items():
+                vg = gen.store.get(k, UNDEF)
+                if vg != vs: self._match(vg, vs, m)
+            if not m: continue
+            memo = {}
+            facts = facts | {f for f in extra if self._subst(f, m, memo) in spec.facts}
+        return State(store, heap, facts)
 
     @staticmethod
     def same_state(a, b):
@@ -346,7 +520,7 @@ class Engine:
             for el in cur[3]: v = self.project(v, el)
             return v
         t = cur[1]
-        if self.access_hook is not None: self.note_access('read', t, st)
+        if self.access_hook is not None and not self.nonfinal: self.note_access('read', t, st)
         if t in st.heap: return st.heap[t]
         if st.heap and t[0] in ('fld', 'idx', 'dc'):
             # a stored aggregate at a prefix of the place: project it
@@ -428,8 +602,8 @@ class Engine:
             st.store[key] = self.update(old, cur[3], val, site)
         else:
             t = cur[1]
-            if self.access_hook is not None: self.note_access('write', t, st)
-            if self.store_hook is not None: self.store_hook(t, val, self.loc, st.facts)
+            if self.access_hook is not None and not self.nonfinal: self.note_access('write', t, st)
+            if self.store_hook is not None and not self.nonfinal: self.store_hook(t, val, self.loc, st.facts)
             # functional update of an aggregate stored at a prefix of the place
             chain = []; r = t
             while r[0] in ('fld', 'idx', 'dc') and r not in st.heap:
@@ -466,7 +640,7 @@ class Engine:
             lhs = s["lhs"]
             lty = body.local_ty(lhs["l"]) if not lhs["p"] else None
             v = self.rvalue(body, fk, st, s["rv"], lty, (fk, bb, s["at"]))
-            if self.value_hook is not None:
+            if self.value_hook is not None and not self.nonfinal:
                 self.cur_lhs = lhs
                 self.value_hook(v, self.loc, st.facts)
             self.write_place(body, fk, st, lhs, v, (fk, bb, s["at"]))
@@ -491,7 +665,7 @@ class Engine:
             cur = self.resolve_place(body, fk, st, rv["pl"])
             if cur[0] == 'local': return ('ref', cur[1], cur[2], cur[3])
             t = cur[1]
-            if self.access_hook is not None:
+            if self.access_hook is not None and not self.nonfinal:
                 self.note_access('refmut' if rv.get("mut") else 'ref', t, st)
             if t[0] == 'deref': return t[1]           # &*p == p
             return ('ref_t', t)
@@ -631,7 +805,10 @@ class Engine:
             return [(t["otherwise"], st)]
         dty = term_ty(d)
         outs = []
-        self.branches.append((d, self.loc))
+        bkey = (self.loc[3], self.loc[1])
+        if bkey in self._branch_idx: self.branches[self._branch_idx[bkey]] = (d, self.loc)
+        else:
+            self._branch_idx[bkey] = len(self.branches); self.branches.append((d, self.loc))
         is_bool = dty == 'bool' or (d[0] == 'op' and d[2] == 'bool') or self.operand_ty(body, t["discr"]) == 'bool'
         if is_bool:
             forced = self.assume(d) if self.assume else None
@@ -744,9 +921,12 @@ class Engine:
             ev = Event(site, name, args, facts, at, False)
             self.events[site] = ev
         else:
+            # in-states only grow during the fixpoint iteration, so the LAST visit of a site sees
+            # the most general state: its arguments and must-facts are the summary of the site
             ev.visits += 1
-            ev.args = [self.join_val(x, y, ('evarg', site, i)) for i, (x, y) in enumerate(zip(ev.args, args))]
-            ev.facts = ev.facts & facts
+            ev.args = list(args)
+            ev.facts = facts
+            ev.ret = None
         return ev
 
     def fold_pure(self, name, args):
@@ -849,7 +1029,9 @@ def subterm(a, b):
 def walk(t):
     """all sub-terms of t (tuples whose head is a constructor name; containers are traversed)"""
     if isinstance(t, tuple):
-        if t and isinstance(t[0], str): yield t
+        if t and isinstance(t[0], str):
+            yield t
+            if t[0] in ('sym', 'phi', 'c', 'p', 'static', 'fn'): return     # keys are not terms
         for x in t:
             if isinstance(x, tuple):
                 for y in walk(x): yield y
